@@ -41,6 +41,10 @@ func verifSDPUnmarshal13(d *sdp.SessionDescription, value []byte) error {
 	if verifapi.Bool("sdp.unmarshalFails") {
 		return verifErr13
 	}
+	if verifapi.Bool("sdp.noMediaSections") { // a session description without any m= line parses fine
+		verifapi.Cover("no media sections")
+		return nil
+	}
 	n := verifapi.Concrete(verifapi.Choice("attrs", 3))
 	md := &sdp.MediaDescription{}
 	for k := 0; k < n; k++ {
